@@ -126,6 +126,21 @@ def run(ctx: Ctx):
     for f_ in fits:
         at = gv.guard_atoms(cfg.node_of(f_), stable_only=False)
         ctx.ob("C16-O3", "R14 GATE", b, "an existing bin is chosen only if the item fits its remaining capacity", atom_of("size <= remaining") in at, f"{sorted(at)[:6]}", node=f_)
+    # a new bin is opened only because no open bin has room: the scan over the open bins is skipped for no item
+    scans = [n for n in ast.walk(lp) if isinstance(n, ast.For) and ast.unparse(n.iter) == "enumerate(bins)"]
+    ctx.floor("scans over the open bins", len(scans), 2)
+    for sc in scans:
+        from sa.guards import atoms as _atoms
+
+        inside = {id(x) for x in ast.walk(lp)}
+        at = set()
+        for br in cfg.guards(cfg.stmt_node_containing(sc.iter)):
+            if br.test.kind == "test" and id(br.test.ast) in inside:
+                at |= _atoms(br.test.ast, br.pol)
+        extra = sorted(a for a in at if a not in ("T:use_best_fit", "F:use_best_fit", atom_of("size != 0")))
+        ctx.ob("C16-O3", "R12 NO-CARDINALITY-CUTOFF", b, "every positive item is offered to all open bins (the scan is selected by the fit rule only)", not extra, f"the scan is skipped under {extra}: an item that would fit an open bin opens a new one, and the decreasing variants lose their 11/9 OPT + 6/9 guarantee", node=sc)
+    floordivs = [n for n in own_nodes(b.node) if isinstance(n, ast.BinOp) and isinstance(n.op, ast.FloorDiv)]
+    ctx.ob("C16-O3", "R32 EXACT-DIVISION", b, "no floor division on sizes or capacities (they may be decimal)", not floordivs, f"`{ast.unparse(floordivs[0])}`" if floordivs else "", node=floordivs[0] if floordivs else b.node)
     place = [n for n in own_nodes(b.node) if isinstance(n, ast.Assign) and ast.unparse(n.targets[0]) == "bins[best_bin]"]
     ctx.ob("C16-O3", "R16 PAIRED-EFFECTS", b, "placing an item lowers that bin's remaining capacity by the item size and records the item", len(place) == 1 and ast.unparse(place[0].value) == "(remaining - size, items)" and "remaining, items = bins[best_bin]" in ast.unparse(b.node) and f"items.append({item})" in ast.unparse(b.node), "", node=b.node)
     for s in result_sites(b):
@@ -209,6 +224,11 @@ def _v_scale_big_integers(tree):
     M.replace_expr(g, lambda e: M.src_is(e, "all((v == int(v) for v in all_vals))"), M.expr("all((v == int(v) for v in all_vals)) and capacity <= 100000"))
 
 
+def _v_skip_scan_for_big_items(tree):
+    g = M.find_func(tree, "solve_bin_pack")
+    M.replace_stmt(g, lambda s: isinstance(s, ast.If) and M.src_is(s.test, "use_best_fit"), lambda s: [ast.If(test=M.expr("decreasing and size > bin_capacity // 2"), body=[ast.Pass()], orelse=[s])])
+
+
 def _t_reformat(tree):
     pass
 
@@ -225,6 +245,7 @@ VARIANTS = [
     M.Variant("best-fit ignores whether the item fits", BP, _v_bin_fit, "C16-O3"),
     M.Variant("two bins labelled OPTIMAL", BP, _v_bin_optimal, "C16-O3"),
     M.Variant("huge integer capacities are down-scaled like decimals (seed C16-C)", KN, _v_scale_big_integers, "C16-O4"),
+    M.Variant("decreasing variants skip the scan for items above floor(capacity / 2) (seed C16-F)", BP, _v_skip_scan_for_big_items, "C16-O3"),
     M.Variant("twin: reformat knapsack", KN, _t_reformat, None),
     M.Variant("twin: reformat bin_pack", BP, _t_reformat, None),
 ]
